@@ -173,6 +173,19 @@ def _pt(case, dim):
                 if ok2:
                     if c.true("UDQ*p/notnone", got is not None, "UnitDualQuaternion * point returned None"):
                         _cmp(c, "UDQ*p/value", got, Rq @ P + t[:, None], tol, sc)
+    if dim == 3:
+        # conversion routes (matrix -> quaternion extraction is only accurate to ~1e-8 next to a half turn: 1e-6 here)
+        ok, Uc = c.lib("UnitQuaternion(SO3)", L.UnitQuaternion, X_so)
+        if ok:
+            ok2, got = c.lib("UQ(SO3)*p", lambda: Uc * arg)
+            if ok2:
+                _cmp(c, "UQ(SO3)*p/value", got, want_so, 1e-6, sc)
+        if N == 1:
+            ok, Dc = c.lib("UnitDualQuaternion(SE3)", L.UnitDualQuaternion, X_se)
+            if ok:
+                ok2, got = c.lib("UDQ(SE3)*p", lambda: Dc * arg)
+                if ok2 and got is not None:
+                    _cmp(c, "UDQ(SE3)*p/value", got, want_se, 1e-6, sc)
     # multi-valued pose x one point -> one column per value
     if len(Ts) > 1 and N == 1:
         Xm = SEc([Ti.copy() for Ti in Ts], check=False)
@@ -181,6 +194,14 @@ def _pt(case, dim):
         ok, got = c.lib("SE[M]*p", lambda: Xm * arg)
         if ok:
             c.eq("SE[M]*p/value", got, want, tol, scm)
+            # the inverse of a multi-valued pose undoes each value: Xm.inv()[i] * (Xm * p)[:, i] = p
+            oki, Xi = c.lib("SE[M].inv", Xm.inv)
+            g = np.asarray(got, dtype=float)
+            if oki and g.shape == want.shape and c.true("SE[M].inv/len", len(Xi) == len(Ts), "inverse of %d values holds %d" % (len(Ts), len(Xi))):
+                for i in range(len(Ts)):
+                    okb, back = c.lib("SE[M].inv[i]*(X*p)", lambda i=i: Xi[i] * g[:, i].copy())
+                    if okb:
+                        c.eq("SE[M].inv*(X*p)=p", np.asarray(back, dtype=float).ravel(), P[:, 0], tol, scm)
         Xr = SOc([Ti[:dim, :dim].copy() for Ti in Ts], check=False)
         ok, got = c.lib("SO[M]*p", lambda: Xr * arg)
         if ok:
